@@ -8,6 +8,7 @@ import (
 	"github.com/aperturerobotics/util/broadcast"
 	"github.com/aperturerobotics/util/ccontainer"
 	"github.com/aperturerobotics/util/promise"
+	"github.com/aperturerobotics/util/verifhook"
 )
 
 // RefCountResolver resolves a value within a RefCount container.
@@ -131,6 +132,7 @@ func WaitRefCountContainer[T comparable](
 // Returns if the context was updated.
 func (r *RefCount[T]) SetContext(ctx context.Context) bool {
 	var updated bool
+	verifhook.Point("lock-enter", r)
 	r.mtx.Lock()
 	if r.ctx != ctx {
 		r.ctx = ctx
@@ -150,6 +152,7 @@ func (r *RefCount[T]) ClearContext() {
 // cb is an optional callback to call when the value changes.
 // the callback will be called with an empty value when the value becomes empty.
 func (r *RefCount[T]) AddRef(cb func(resolved bool, val T, err error)) *Ref[T] {
+	verifhook.Point("lock-enter", r)
 	r.mtx.Lock()
 	nref := &Ref[T]{rc: r, cb: cb}
 	r.refs[nref] = struct{}{}
@@ -341,6 +344,7 @@ func (r *RefCount[T]) Access(ctx context.Context, cb func(ctx context.Context, v
 
 // removeRef removes a reference and shuts down if no refs remain.
 func (r *RefCount[T]) removeRef(ref *Ref[T]) {
+	verifhook.Point("lock-enter", r)
 	r.mtx.Lock()
 	lenBefore := len(r.refs)
 	delete(r.refs, ref)
@@ -409,6 +413,7 @@ func (r *RefCount[T]) startResolveLocked() {
 func (r *RefCount[T]) resolve(ctx context.Context, waitCh, doneCh chan struct{}, nonce uint32) {
 	defer close(doneCh)
 
+	verifhook.Point("exec-start", r)
 	if waitCh != nil {
 		select {
 		case <-ctx.Done():
@@ -420,6 +425,7 @@ func (r *RefCount[T]) resolve(ctx context.Context, waitCh, doneCh chan struct{},
 	released := func() {
 		resolveAfterRelease := func(lock bool) {
 			if lock {
+				verifhook.Point("lock-enter", r)
 				r.mtx.Lock()
 			}
 			defer r.mtx.Unlock()
@@ -438,6 +444,7 @@ func (r *RefCount[T]) resolve(ctx context.Context, waitCh, doneCh chan struct{},
 
 	val, valRel, err := r.resolver(ctx, released)
 
+	verifhook.Point("lock-enter", r)
 	r.mtx.Lock()
 	defer r.mtx.Unlock()
 
